@@ -107,6 +107,23 @@ def handle (toks : List String) : String :=
       | .ok o => showShootOut o
       | .error e => showErr e
     | _, _ => "bad-op"
+  | ["commit2", st, s0, s1] =>
+    -- run_md's commit step for a two-ensemble move: move status, the two trials' own statuses
+    let mk : String → ZeroSwap.Status := fun s => if s = "ACC" then .ACC else .none
+    let r : ZeroSwap.Result :=
+      { accept := (st = "ACC")
+        status := (mk st)
+        path0 := []
+        path1 := []
+        st0 := (mk s0)
+        st1 := (mk s1)
+        w0 := 0
+        w1 := 0
+        reqs := []
+        draws := 0
+        expArg := none }
+    let o := runMdCommit2 r [] []
+    s!"{b01 o.replaced0} {b01 o.replaced1}"
   | "wf" :: v :: rest =>
     match parseVariant? v, parseWfIn rest with
     | some v, some i =>
